@@ -302,6 +302,7 @@ func writeEvidence(w *World, res *checkResult, tier string, seed int, cfg Solver
 	vacOK := map[string]bool{}
 	vacSeen := map[string]bool{}
 	probes := 0
+	var slow []map[string]any
 	for _, o := range res.all {
 		if o.Kind == "vacuity" {
 			probes++
@@ -335,6 +336,9 @@ func writeEvidence(w *World, res *checkResult, tier string, seed int, cfg Solver
 		nObl++
 		if o.Status == "discharged" {
 			nDis++
+		}
+		if o.TimeS > 2.0 {
+			slow = append(slow, map[string]any{"obligation": o.ID, "time_s": round3(o.TimeS), "backend": o.Backend, "status": o.Status})
 		}
 		byBackend[o.Backend]++
 		solverTime += o.TimeS
@@ -390,6 +394,7 @@ func writeEvidence(w *World, res *checkResult, tier string, seed int, cfg Solver
 		"obligations":              nObl,
 		"discharged":               nDis,
 		"reachability_probes":      probes,
+		"slow_obligations":         slow,
 		"checker_cmd":              fmt.Sprintf("/verif/bin/govc check -prop %s -tier %s  (VCs from /repo working tree via go/packages -tags=verif; solvers z3-new 5.1 / z3 4.8.12 / cvc5 1.0.x raced, %ds limit)", prop, tier, cfg.TimeoutS),
 		"trusted_base":             append([]string{"govc VC generator (/verif/govc)", "go/packages + go/types (x/tools v0.29.0)", "SMT solvers z3 / cvc5"}, deps...),
 		"samples":                  samples,
